@@ -171,4 +171,18 @@ class Flow(Driver):
         return False
 
 
-REGISTRY = {'flow': Flow}
+class FlowFaults(Flow):
+    """FLOW plus deviations inside every job (spec['faults'] in
+    {'c02', 'c08'})."""
+    def plan_deviations(self, w, snap, ev, res):
+        from . import faults
+        return getattr(faults, self.spec.get('faults', 'c02') + '_plan')(
+            self, w, snap, ev, res)
+
+    def run_deviation(self, w, snap, ev, dev, ctx):
+        from . import faults
+        return getattr(faults, self.spec.get('faults', 'c02') + '_run')(
+            self, w, snap, ev, dev, ctx)
+
+
+REGISTRY = {'flow': Flow, 'flow_faults': FlowFaults}
